@@ -16,6 +16,10 @@ THEOREMS = [
     "clusterMove_weight_ising",
     "clusterMove_symm",
     "clusterMove_consistent",
+    "clusterMove_link",
+    "clusterMove_boundary_state",
+    "clusterMove_idle",
+    "clusterMove_refl",
     "clusterMove_tags",
     "clusterFlips_spec",
     "clusterFlips_half",
